@@ -5,4 +5,5 @@ def main (args : List String) : IO UInt32 := do
   match args with
   | ["mem"] => Driver.Mem.run; return 0
   | ["thpool"] => Driver.Thpool.run; return 0
+  | ["thpool", "labels"] => Driver.Thpool.run true; return 0
   | _ => IO.eprintln "usage: lmdriver <model>"; return 2
